@@ -75,6 +75,28 @@ impl Expr
 	}
 
 	
+	/// Replaces the span of the expression as a whole
+	/// (e.g. to take in the parentheses written around it)
+	pub fn with_span(mut self, new_span: diagn::Span) -> Expr
+	{
+		match self
+		{
+			Expr::Literal   (ref mut span, ..) |
+			Expr::Variable  (ref mut span, ..) |
+			Expr::UnaryOp   (ref mut span, ..) |
+			Expr::BinaryOp  (ref mut span, ..) |
+			Expr::TernaryOp (ref mut span, ..) |
+			Expr::Slice     (ref mut span, ..) |
+			Expr::SliceShort(ref mut span, ..) |
+			Expr::Block     (ref mut span, ..) |
+			Expr::Call      (ref mut span, ..) |
+			Expr::Asm       (ref mut span, ..) => *span = new_span,
+		}
+
+		self
+	}
+
+
 	pub fn span(&self) -> diagn::Span
 	{
 		match self
